@@ -187,7 +187,9 @@ def record_emitter(Dumper):
         allow = (not (self.simple_key_context and (a.empty or a.multiline))
                  and bool(self.flow_level and a.allow_flow_plain or (not self.flow_level and a.allow_block_plain)))
         log.append({"value": ev.value, "implicit0": bool(ev.implicit[0]), "style": style, "plain_allowed": allow,
-                    "forced": bool(ev.style) or bool(self.canonical), "tag": ev.tag})
+                    "forced": bool(ev.style) or bool(self.canonical), "tag": ev.tag, "allow_block_plain": bool(a.allow_block_plain),
+                    "allow_single_quoted": bool(a.allow_single_quoted), "multiline": bool(a.multiline), "empty": bool(a.empty),
+                    "simple_key": bool(self.simple_key_context)})
         return style
 
     Dumper.choose_scalar_style = wrapper
@@ -414,6 +416,109 @@ def correspond_json_strings(ctx, m, strings, origin):
     return bad
 
 
+STYLE_NAMES = {"": "plain", "'": "single", '"': "double"}
+EMIT_ALPHABET = list("-?:,[]{}#&*!|>'\"%@`") + [" ", "\t", "a", "b", "1", ".", "\\", "=", "<", "~", "\n", "\r", "\x85", "\u2028", "\xe9", "\xa0",
+                                                 "\ufeff", "\x7f", "\U0001f600", "\U0010ffff", "e", "n", "_"]
+
+
+def _cs(xs):
+    return "".join(chr(c) for c in xs)
+
+
+def rest_is_comment(rest):
+    t = rest.lstrip(" \t")
+    return t == "" or (t.startswith("#") and t != rest)
+
+
+def correspond_emitter(ctx, m, strings, origin):
+    """the emitter model (analyze_scalar, choose_scalar_style, writers without folding) and the line scanner model
+    against the live Dumper / Loader, in value and key position"""
+    from jsonargparse import _loaders_dumpers as ld
+
+    Dumper = m["cap"]["Dumper"]
+    strings = [s for s in dict.fromkeys(strings) if lean_ok_string(s)]
+    col = 3   # 'k: ' precedes the value
+    res = driver(ctx, [{"op": "emit", "s": codes(s), "col": col} for s in strings])
+    bad = []
+    if res is None:
+        return bad
+    loads = []   # (kind, s, line, col0)
+    for s, r in zip(strings, res):
+        for pos in ("value", "key"):
+            doc = {"k": s} if pos == "value" else {s: 1}
+            with record_emitter(Dumper) as log:
+                try:
+                    text = ld.dumpers["yaml"](doc)
+                except Exception as ex:  # noqa: BLE001
+                    bad.append({"what": "yaml_dump raises %s" % type(ex).__name__, "s": s})
+                    continue
+            ev = [e for e in log if e["value"] == s and e["tag"].endswith(":str")]
+            ev = [e for e in ev if e["simple_key"] == (pos == "key")] or ev
+            if not ev:
+                continue
+            ev = ev[0]
+            ctx.count()
+            if ev["allow_block_plain"] != r["plainOK"] or ev["allow_single_quoted"] != r["allowSingle"] or ev["multiline"] != r["multiline"]:
+                bad.append({"what": "analyze_scalar differs from the model", "s": s, "real": {k: ev[k] for k in ("allow_block_plain", "allow_single_quoted", "multiline")},
+                            "model": {k: r[k] for k in ("plainOK", "allowSingle", "multiline")}})
+                continue
+            model_style = r["styleV"] if pos == "value" else r["styleK"]
+            if ev["simple_key"] == (pos == "key") and STYLE_NAMES.get(ev["style"]) != model_style:
+                bad.append({"what": "choose_scalar_style differs from the model (%s position)" % pos, "s": s, "real": ev["style"], "model": model_style})
+                continue
+            emitted = r["emitV"] if pos == "value" else r["emitK"]
+            if emitted is None or ev["simple_key"] != (pos == "key"):
+                continue
+            want = ("k: " + _cs(emitted) + "\n") if pos == "value" else (_cs(emitted) + ": 1\n")
+            if text != want:
+                bad.append({"what": "emitted text differs from the model (%s position)" % pos, "s": s, "real": text, "model": want})
+                continue
+            ctx.hist("emit_style", pos + ":" + model_style)
+            loads.append((pos, s, _cs(emitted) + ("" if pos == "value" else ": 1"), pos == "key"))
+    res2 = driver(ctx, [{"op": "loadline", "s": codes(line), "col0": c0} for _, _, line, c0 in loads])
+    for (pos, s, line, c0), r in zip(loads, res2 or []):
+        ctx.count()
+        want_rest = "" if pos == "value" else ": 1"
+        if r.get("r", 0) is None or r["tag"] != 0 or _cs(r["v"]) != s or _cs(r["rest"]) != want_rest:
+            bad.append({"what": "loadLine does not read the emitted text back (the theorem's statement) in %s position" % pos, "s": s, "line": line, "model": r})
+    return bad
+
+
+def correspond_lines(ctx, m, rng, n):
+    """random single lines after 'k: ': whenever the scanner model reads a whole-line scalar the live loader agrees"""
+    from jsonargparse import _loaders_dumpers as ld
+
+    alphabet = [a for a in EMIT_ALPHABET if a not in ("\n", "\x85", "\u2028")] + ["''", '\\"', "\\n", "\\x41", ": ", " #", "x", "yes", "1e3", "null"]
+    lines = []
+    for _ in range(n):
+        lines.append("".join(rng.choice(alphabet) for _ in range(rng.choice([1, 2, 3, 4, 5, 7]))))
+    res = driver(ctx, [{"op": "loadline", "s": codes(t), "col0": False} for t in lines])
+    bad = []
+    said = 0
+    for t, r in zip(lines, res or []):
+        if r.get("r", 0) is None or not rest_is_comment(_cs(r["rest"])):
+            continue
+        said += 1
+        ctx.count()
+        try:
+            back = ld.loaders["yaml"]("k: " + t + "\n")
+            got = back["k"] if isinstance(back, dict) and list(back) == ["k"] else ("<other>", back)
+        except Exception as ex:  # noqa: BLE001
+            got = ("<exception>", type(ex).__name__)
+        tag = m["tags"][r["tag"]] if r["tag"] < len(m["tags"]) else "?"
+        want_type = TAG_TYPES.get(tag)
+        v = _cs(r["v"])
+        ok = (type(got) is str and got == v) if tag == "str" else (want_type is not None and type(got) is want_type)
+        if tag in ("int", "float") and isinstance(got, tuple) and got[0] == "<exception>":
+            ok = True      # resolved as a number but not constructible (e.g. 0x_): loader error, see F02
+        if want_type is None and tag != "str":
+            ok = True      # merge / value / timestamp-like tags: construction is outside this comparison
+        if not ok:
+            bad.append({"what": "loadLine reads a scalar where the loader does not (or another one)", "line": t, "model": {"tag": tag, "v": v}, "real": repr(got)})
+    ctx.extra["random_lines_read_as_scalar"] = said
+    return bad
+
+
 DQ_ALPHABET = ["a", "b", " ", "  ", "\t", "\n", "\r", "\r\n", "\x85", "\u2028", "\u2029", "\xa0", "\\\\", '\\"', "\\n", "\\t", "\\ ", "\\\n", "\\\r\n",
                "\\x41", "\\u00e9", "\\U0001F600", "\\ud83d", "\\uD800", "\\x4", "\\q", "\\0", "\\/", "\\N", "\\_", "\\L", "\\P", "\\e", "\\a", "\\v",
                "\\f", "\\r", "\\b", "-", "---", "--- ", "...", "... ", ".", "\xe9", "\U0001f600", "\x7f", "\x9b", "\ufffe", "\ufeff", "'", "#", ":",
@@ -527,6 +632,18 @@ def run(ctx: Ctx):
 
     fixed_rng = random.Random(derive_seed(20260926, "C01-fixed"))
 
+    import time as _time
+
+    stage_t = {}
+    _t0 = [_time.time()]
+
+    def lap(name):
+        now = _time.time()
+        stage_t[name] = round(stage_t.get(name, 0) + now - _t0[0], 1)
+        _t0[0] = now
+        ctx.extra["stage_seconds"] = stage_t
+
+    lap("build")
     # ---------------- 2. extractor validation
     n, bad = validate_short_words(ctx, m, rr, 4 if ctx.thorough else 3)
     ctx.extra["validated_short_words"] = {"max_len": 4 if ctx.thorough else 3, "words": n, "patterns": len(m["comp_names"])}
@@ -535,6 +652,7 @@ def run(ctx: Ctx):
     for b in (bad + bad2)[:3]:
         ctx.tie_break("extractor validation: %s of %s disagrees with the live regex/resolver" % (b[0], b[1]), json.dumps({"string": b[2], "codes": codes(b[2])}))
 
+    lap("extractor_validation")
     # ---------------- strings
     from ..lib import corpus as corpus_mod
 
@@ -573,8 +691,19 @@ def run(ctx: Ctx):
     json_strings = list(dict.fromkeys(corpus_strings + [s for s in gen_strings[: n_str // 2]] +
                                       ["".join(fixed_rng.choice(["a", " ", "\xe9", "\U0001f600", '"', "\\", "\n", "\t", "\x01", "\x1f", "/", "\ufeff", "\ud7ff", "\ue000", "\U0010ffff"])
                                                for _ in range(fixed_rng.randint(1, 6))) for _ in range(ctx.budget(200, 2000))]))
+    lap("yaml_string_correspondence")
     bad += correspond_json_strings(ctx, m, json_strings, "generated")
     bad += correspond_dq(ctx, m, ctx.rng, ctx.budget(600, 6000))
+    lap("json_dq_correspondence")
+    # emitter / scanner model: exhaustive short strings over the indicator alphabet, then generated strings
+    short = [""] + ["".join(w) for n in range(1, (4 if ctx.thorough else 3)) for w in itertools.product(EMIT_ALPHABET, repeat=n)]
+    if not ctx.thorough:
+        short = [w for w in short if len(w) <= 2] + [ctx.rng.choice(short) for _ in range(1500)]
+    longish = [ctx.rng.choice(["word ", "x", "a b ", "'", '"', "\xe9 "]) * ctx.rng.randint(8, 40) for _ in range(30)]
+    bad += correspond_emitter(ctx, m, short + all_strings[: ctx.budget(700, 6000)] + longish, "generated")
+    bad += correspond_lines(ctx, m, ctx.rng, ctx.budget(1500, 15000))
+    ctx.extra["emitter_exhaustive"] = {"alphabet": len(EMIT_ALPHABET), "max_len": 3 if ctx.thorough else 2}
+    lap("emitter_scanner_correspondence")
     numbers = [None, True, False] + E.INTS + E.FLOATS + [math.inf, -math.inf, math.nan] + \
         [ctx.rng.randint(-10 ** 30, 10 ** 30) for _ in range(ctx.budget(100, 1000))] + \
         [ctx.rng.uniform(-1, 1) * 10 ** ctx.rng.randint(-300, 300) for _ in range(ctx.budget(200, 2000))]
@@ -599,6 +728,7 @@ def run(ctx: Ctx):
                 else:
                     scalar_violation(ctx, s, fmt, "str value %r: %s after dump(format=%s)" % (s, why, fmt), "probe")
 
+    lap("numbers_and_probe")
     # ---------------- 4. end-to-end oracle
     variants = E.all_variants()
     n_corpus = 0
@@ -624,6 +754,7 @@ def run(ctx: Ctx):
                 ctx.nontrivial("e:" + json.dumps(case, sort_keys=True, default=repr))
             if i < 3:
                 ctx.sample({"spec": [(a["name"], E.type_shape(a["type"])) for a in case["spec"]["args"]], "obj": case["obj"]})
+    lap("e2e_corpus_and_seed_driven")
     # wider exploration with a fixed internal seed (known-finding classes allowed; anything else is a violation)
     n_wide = ctx.budget(400, 5000) * boost(3)
     for i in range(n_wide):
@@ -636,6 +767,7 @@ def run(ctx: Ctx):
     ctx.extra["e2e"] = {"corpus": n_corpus, "seed_driven": n_seed, "seed_driven_accepted": accepted, "wide_fixed_seed": n_wide,
                         "variants": [variant_name(v) for v in variants]}
 
+    lap("e2e_wide")
     # ---------------- 5. fixed demos and open findings
     ctx.replay_fixed_demos()
     for f in ctx.open_findings():
